@@ -70,15 +70,30 @@ def run(F, R):
     # ---------------------------------------------------------------- R2 only the query is rewritten
     R.rule("C03-R2", "append_query_parameter rewrites only path_and_query, keeping path and existing query as a prefix and adding key=value last")
     ws = [(bi, p, r) for (bi, si, p, r) in aqp.field_writes if bi in aqp.reach0]
+    wbody, wargs = aqp, None
+    if not ws:
+        # the write may sit in a private helper that is handed the Parts (e.g. a shared "replace path and query" tail)
+        for hv_ in lib.with_private_callees(W, aqp, same_self=False)[1:]:
+            w2 = [(bi, p, r) for (bi, si, p, r) in hv_.field_writes if bi in hv_.reach0 and "Parts" in hv_.lty(p["l"])["s"]]
+            site_ = [t2 for _, t2 in aqp.calls() if (t2.get("resolved_id") or t2.get("callee_id")) == hv_.id]
+            if w2 and len(site_) == 1:
+                ws, wbody = w2, hv_
+                wargs = [aqp.trace_op(a_) for a_ in site_[0]["args"]]
+                break
     names = {1: "self", 2: "key", 3: "value"}
     R.check("C03-R2", "single-field", len(ws) == 1 and smod._chain(ws[0][1]) == ["path_and_query"], "only path_and_query is written", "fields written between into_parts and from_parts: %s" % [smod._chain(p) for _, p, _ in ws])
     if ws:
-        v = terms.render(aqp, aqp._trace_rv(ws[0][2], None, 0), W, names, transparent=T)
+        vt_ = wbody._trace_rv(ws[0][2], None, 0)
+        if wargs is not None:
+            from .. import optnorm as _on
+            vt_ = _on.simplify(lib.subst_params(terms.annotate_names(wbody, vt_), wargs))
+        v = terms.render(aqp, vt_, W, names, transparent=T)
         pq = "into_parts(self).path_and_query@Some.0"
         exp = "Some{parse::<http::uri::PathAndQuery>(phi(fmt('?{0}={1}', display(key), display(value))|fmt('{0}?{1}&{2}={3}', display(path(%s)), display(query(%s)@Some.0), display(key), display(value))|fmt('{0}?{1}={2}', display(path(%s)), display(key), display(value))))@Continue.0}" % (pq, pq, pq)
         R.check("C03-R2", "composition", v == exp, v[:200], "new path_and_query is %s, expected %s" % (v, exp))
-        ret = terms.render(aqp, aqp.trace_local(0), W, names, transparent=T)
-        R.check("C03-R2", "reassembled", "Ok{from_parts(into_parts(self))@Continue.0}" in ret, "Uri::from_parts(the same parts)", "result is %s" % ret[:160])
+        from .. import optnorm as _on2
+        ret = _on2.canon(terms.render(aqp, _on2.inline_all(W, aqp, aqp.trace_local(0)), W, names, transparent=T)).replace("@OK", "@Continue.0")
+        R.check("C03-R2", "reassembled", "Ok{from_parts(into_parts(self))@Continue.0}" in ret or ret.endswith("from_parts(into_parts(self)))") or "map_err(from_parts(into_parts(self))" in ret, "Uri::from_parts(the same parts)", "result is %s" % ret[:160])
         # which format is used under which condition
         sw = [b for b in sorted(aqp.reach0) if aqp.blocks[b]["t"]["k"] == "switch" and len(aqp.succ[b]) > 1 and aqp.switch_subject(b) is not None]
         conds = []
@@ -209,10 +224,14 @@ def run(F, R):
     for x in reqs[:1]:
         nd = S.nodes[x]
         # the request passed to HttpRequest::request is the parameter of the send helper, whose caller passes build()'s result
-        ex = nd.ctx.parent
+        ex = nd.ctx
         while ex is not None and not any(t.get("name") == "verify_response" for _, t in ex.bv.calls()):
             ex = ex.parent
-        if ex is None:
+        if ex is nd.ctx:
+            # no send helper: the exchange function hands the request to the transport itself
+            a = terms.render(ex.bv, ex.bv.trace_op(nd.term["args"][1]), W, {}, transparent=T)
+            R.check("C03-R4", "send-consumes-build", a.startswith("build(") and a.endswith("@Continue.0.0"), a[:80], "the request sent is %s" % a[:100])
+        elif ex is None:
             R.inconclusive("C03-R4", "send-consumes-build", "exchange function of the send not found")
         else:
             mk = [t for _, t in ex.bv.calls() if t.get("callee_id") and (t["callee_id"] + "::{closure#0}") == nd.ctx.bv.id]
